@@ -50,16 +50,29 @@ def run(chk, orch):
         if rounds == 1:
             # a workload without multi-mappers, run in folders that hold the intermediate files (--keep_tmp) of another data set
             # WITH multi-mappers and duplicates: nothing of the earlier run may leak into this one
-            hist_spec = {"seed": 14, "n_chr": 3, "genes_per_chr": 3, "paralogs": 0, "intergenic_multi": 0, "novel": 1, "groups": 0}
+            # (several genes with TWO unannotated isoforms each: the order of a gene's novel models in the extended annotation)
+            hist_spec = {"seed": 14, "n_chr": 3, "genes_per_chr": 4, "paralogs": 0, "intergenic_multi": 0, "novel": 6, "novel_twin": 1,
+                         "novel_cov": 6, "groups": 0}
             # (same options, so that both runs produce the same set of output files)
             hist_pre = {"spec": {"seed": 15, "n_chr": 3, "genes_per_chr": 3, "paralogs": 2, "intergenic_multi": 2, "dup_records": 2,
                                  "novel": 2, "groups": 0, "ambig_multi": 3},
                         "opts": {"keep_tmp": True, "threads": 1}}
             wls.append((hist_spec, {}))
+            # a library in which tails are required (>= 70% of the assigned reads carry one) but the reads of one annotated gene and
+            # of an unannotated isoform have none: what is reported for them hangs on the library-wide tail statistics, which the
+            # two memory modes gather on different paths
+            polya_spec = {"seed": 16, "n_chr": 3, "genes_per_chr": 6, "paralogs": 0, "intergenic_multi": 0, "groups": 0, "novel": 1,
+                          "novel_cov": 6, "reads_per_iso": 8, "mono": 0, "novel_notail": 2, "polya": 1}
+            wls.append((polya_spec, {}))
         jobs = {}
         for wi, (spec, opts) in enumerate(wls):
             gid = orch.submit(0, "scenarios:pipeline", common.job_args(spec, opts, common.GOLDEN_CELL), tag=("g", wi))
-            if rounds == 1 and spec.get("seed") == 14 and wi == len(wls) - 1:
+            if rounds == 1 and spec.get("seed") == 16 and spec.get("novel_notail"):
+                g0 = common.GOLDEN_CELL
+                cells = [dict(g0, high_memory=True, note="memory_mode"),
+                         dict(g0, high_memory=True, threads=3, sched={"policy": "spread", "seed": 5}, note="memory_mode"),
+                         dict(g0, threads=2, hashseed=3, sched={"policy": "random", "seed": 6})]
+            elif rounds == 1 and spec.get("seed") == 14 and wi == len(wls) - 2:
                 g0 = common.GOLDEN_CELL
                 cells = [dict(g0, pre=hist_pre, note="folder_history"),
                          dict(g0, pre=hist_pre, threads=2, sched={"policy": "spread", "seed": 4}, note="folder_history"),
